@@ -150,6 +150,11 @@ pub fn verif_dir() -> PathBuf {
         .unwrap_or_else(|_| PathBuf::from("/verif"))
 }
 
+/// Where evidence and replay files go (default: the verif directory itself).
+pub fn out_dir() -> PathBuf {
+    std::env::var("VERIF_OUT").map(PathBuf::from).unwrap_or_else(|_| verif_dir())
+}
+
 fn workers() -> usize {
     std::env::var("VERIF_WORKERS")
         .ok()
@@ -440,7 +445,7 @@ pub fn load_known() -> KnownFile {
 }
 
 pub fn write_replay(check: &dyn Erased, seed: u64, index: u64, rule: &str, sc: &Value, msg: &str) -> PathBuf {
-    let dir = verif_dir().join("replays");
+    let dir = out_dir().join("replays");
     let _ = std::fs::create_dir_all(&dir);
     let safe_rule: String = rule
         .chars()
@@ -623,7 +628,7 @@ pub fn run_check(check: &dyn Erased, tier: Tier) -> i32 {
         "wall_s": res.wall_s,
         "violations": reported,
     });
-    let dir = verif_dir().join("evidence");
+    let dir = out_dir().join("evidence");
     let _ = std::fs::create_dir_all(&dir);
     let path = dir.join(format!("{}.json", check.id()));
     if let Err(e) = std::fs::write(&path, serde_json::to_string_pretty(&ev).unwrap()) {
